@@ -34,8 +34,8 @@ struct emit_s {
     uint8_t track;
     uint32_t len;
     int64_t offset;
-    uint8_t pay[PAYMAX];
 };
+static uint8_t empay[MAXCH][PAYMAX];     /* payload copies, kept in a plain byte array (see DESIGN: memcpy into struct members) */
 static struct emit_s em[MAXCH];
 static uint32_t n_em;
 static int64_t next_off = 4096;
@@ -52,7 +52,9 @@ static int32_t sink(uint8_t is_summary, uint16_t signal_id, enum jls_track_type_
         em[n_em].track = (uint8_t) t;
         em[n_em].len = n;
         em[n_em].offset = next_off;
-        memcpy(em[n_em].pay, p, PAYMAX);     /* the builder's buffers are exactly this large */
+        for (unsigned i = 0; i < PAYMAX; ++i) {     /* the builder's buffers are exactly this large */
+            empay[n_em][i] = p[i];
+        }
         ++n_em;
     }
     next_off += 32 + ((n + 4 + 7) / 8) * 8;
@@ -77,20 +79,26 @@ void harness(void) {
     const enum jls_track_type_e TT = JLS_TRACK_TYPE_ANNOTATION;
 #endif
     struct jls_core_ts_s * ts = NULL;
-#ifdef REPLAY
-    ASSUME(0 == jls_wr_ts_open(&ts, sig, TT, DF) && ts != NULL);
-#else
-    /* same state as jls_wr_ts_open produces, but in a typed static object: a calloc'd struct is a byte array to CBMC and
-     * symex of every field access took ~60 s.  ts_free (which would free it) has its body removed in the CBMC build. */
-    static struct jls_core_ts_s ts_obj;
-    ts_obj.parent = sig;
-    ts_obj.track_type = TT;
-    ts_obj.decimate_factor = DF;
-    ts = &ts_obj;
-#endif
+    /* the state jls_wr_ts_open creates, in a malloc'd object that CBMC can type (jls_wr_ts_open uses calloc, which CBMC models
+     * as an untyped byte array: symex of each field access then took ~60 s) */
+    ts = (struct jls_core_ts_s *) malloc(sizeof(struct jls_core_ts_s));
+    ASSUME(ts != NULL);
+    ts->parent = sig;
+    ts->track_type = TT;
+    ts->decimate_factor = DF;
+    for (unsigned i = 0; i < JLS_SUMMARY_LEVEL_COUNT; ++i) {
+        ts->index[i] = NULL;
+        ts->summary[i] = NULL;
+    }
 
+#ifdef N_FIXED
+    /* the number of entries is fixed per instance: a symbolic count makes every per-level buffer index symbolic and symex of
+     * the recursive commit does not finish (measured); timestamps, offsets and fields stay symbolic */
+    const uint32_t n = N_FIXED;
+#else
     SYM_U32(n);
     ASSUME(n >= 1 && n <= NMAX);
+#endif
     int64_t tstamp[NMAX], doff[NMAX], aux[NMAX];
     SYM_I64(t0);
     ASSUME(t0 > -((int64_t) 1 << 40) && t0 < ((int64_t) 1 << 40));
@@ -128,12 +136,12 @@ void harness(void) {
         CHECK(ix->level == sm->level && ix->track == TT && sm->track == TT, "the SUMMARY has the level and track of its INDEX");
         CHECK(ix->level >= 1 && ix->level < JLS_SUMMARY_LEVEL_COUNT, "level in range");
         struct jls_payload_header_s ih, sh;
-        memcpy(&ih, ix->pay, 16);
-        memcpy(&sh, sm->pay, 16);
+        memcpy(&ih, empay[2 * wp], 16);
+        memcpy(&sh, empay[2 * wp + 1], 16);
         CHECK(ih.entry_count >= 1 && ih.entry_count <= DF, "an index chunk holds 1..decimate_factor entries");
         CHECK(ih.entry_size_bits == 128 && ix->len == 16 + 16 * ih.entry_count, "index entries are (timestamp, offset) pairs; payload length matches");
         struct jls_index_entry_s e0;
-        memcpy(&e0, ix->pay + 16, 16);
+        memcpy(&e0, empay[2 * wp] + 16, 16);
         CHECK(ih.timestamp == e0.timestamp && sh.timestamp == e0.timestamp, "INDEX and SUMMARY timestamp = timestamp of the first entry");
         if (ix->level == 1) {
             CHECK(sh.entry_count == ih.entry_count, "a level-1 SUMMARY has one entry per index entry");
@@ -148,7 +156,7 @@ void harness(void) {
         for (unsigned k = 0; k < MAXCH / 2; ++k) {
             if (k < wp && 2 * k < n_em && em[2 * k].level == 1) {
                 struct jls_payload_header_s h;
-                memcpy(&h, em[2 * k].pay, 16);
+                memcpy(&h, empay[2 * k], 16);
                 before_l1 += h.entry_count;
             }
         }
@@ -156,7 +164,7 @@ void harness(void) {
         ASSUME(we < DF);
         if (we < ih.entry_count) {
             struct jls_index_entry_s e;
-            memcpy(&e, ix->pay + 16 + 16 * we, 16);
+            memcpy(&e, empay[2 * wp] + 16 + 16 * we, 16);
             if (ix->level == 1) {
                 uint32_t gi = before_l1 + we;
                 CHECK(gi < n, "no more level-1 entries than annotations written");
@@ -164,11 +172,11 @@ void harness(void) {
                     CHECK(e.timestamp == tstamp[gi] && e.offset == (uint64_t) doff[gi], "level-1 index entry = (timestamp, data chunk offset) of the entry, in write order");
 #ifdef UTC_TRACK
                     struct jls_utc_summary_entry_s se;
-                    memcpy(&se, sm->pay + 16 + 16 * we, 16);
+                    memcpy(&se, empay[2 * wp + 1] + 16 + 16 * we, 16);
                     CHECK(se.sample_id == tstamp[gi] && se.timestamp == aux[gi], "level-1 UTC summary entry = (sample id, utc)");
 #else
                     struct jls_annotation_summary_entry_s se;
-                    memcpy(&se, sm->pay + 16 + 16 * we, 16);
+                    memcpy(&se, empay[2 * wp + 1] + 16 + 16 * we, 16);
                     CHECK(se.timestamp == tstamp[gi] && se.annotation_type == (aux[gi] & 3) && se.group_id == (uint8_t) (aux[gi] >> 8) && se.y == 1.5f,
                           "level-1 annotation summary entry repeats timestamp, type, group, y");
 #endif
@@ -179,7 +187,7 @@ void harness(void) {
                 for (unsigned k = 0; k < MAXCH / 2; ++k) {
                     if (2 * k < n_em && k < wp && em[2 * k].level == ix->level - 1 && (uint64_t) em[2 * k].offset == e.offset) {
                         struct jls_payload_header_s h;
-                        memcpy(&h, em[2 * k].pay, 16);
+                        memcpy(&h, empay[2 * k], 16);
                         found = (h.timestamp == e.timestamp);
                     }
                 }
@@ -193,7 +201,7 @@ void harness(void) {
     for (unsigned k = 0; k < MAXCH / 2; ++k) {
         if (2 * k < n_em && em[2 * k].level == 1 && !em[2 * k].is_summary) {
             struct jls_payload_header_s h;
-            memcpy(&h, em[2 * k].pay, 16);
+            memcpy(&h, empay[2 * k], 16);
             total_l1 += h.entry_count;
         }
     }
